@@ -1,7 +1,7 @@
 (* C04 — balance predicate over paths, the flattened call chains, and the
    decoding of fault-enumeration cases.  No proofs here. *)
 From Coq Require Import List String Bool Arith ZArith.
-From Verif Require Import lib.Wire c04.Events c04.Model c04.Close c04.Accept gen.Paths_c04.
+From Verif Require Import lib.Wire c04.Events c04.Model c04.Close c04.Accept c04.CloseOnce gen.Paths_c04.
 Import ListNotations.
 Local Open Scope string_scope.
 
@@ -37,6 +37,7 @@ Definition L_listener_go := inline_all lib1 (cl fn_listener_go listener_go).
 Definition L_gated_accept := cl fn_gated_accept gated_accept.
 Definition L_listener_accept := cl fn_listener_accept listener_accept.
 Definition L_listener_loop := cl fn_listener_loop listener_loop.
+Definition L_listener_close := cl fn_listener_close listener_close.
 Definition L_host_streamhandler := cl fn_host_streamhandler host_streamhandler.
 Definition L_tcp_dial_scope := inline_all lib1 (cl fn_tcp_dial_scope tcp_dial_scope).
 Definition lib2 := ("tcp_dial_scope", L_tcp_dial_scope) :: lib1.
@@ -128,6 +129,8 @@ Definition entries : list (string * bool * st * list (list aev)) :=
    ("websocket listener.ServeHTTP", false, st0, L_ws_serve);
    ("websocket httpNetListener.Accept", true, st0, L_ws_netaccept);
    ("Swarm.AddListenAddr", true, st0, L_swarm_addlisten);
+   (* every return of listener.Close must leave every connection it drained released *)
+   ("upgrader listener.Close", false, st0, L_listener_close);
    (* finishing calls: every return, with or without an error, must leave the stream released *)
    ("Stream.Close", false, st_sstream, L_stream_close);
    ("Stream.Reset", false, st_sstream, L_stream_reset);
@@ -186,6 +189,7 @@ Definition monitor_case (l : list Z) : list Z :=
   match l with
   | 5 :: r => close_monitor r      (* close race on a real swarm: see Close.v *)
   | 8 :: r => accept_monitor r     (* listener.Close racing with in-flight accepts: see Accept.v *)
+  | 9 :: r => once_monitor r       (* concurrent callers of Swarm.Close: see CloseOnce.v *)
   | [kind; cfg; fk; fi; err; rcl; rcr; dconn; dfd; dmem; dstr; gl] =>
       let ok_raw := (rcl =? 1) && ((rcr =? 1) || (rcr =? 2)) in   (* 2 = not applicable *)
       let ok_scope := (dconn =? 0) && (dfd =? 0) && (dmem =? 0) && (dstr =? 0) in
@@ -225,6 +229,7 @@ Definition conform_case (l : list Z) : list Z :=
   match l with
   | 5 :: r => close_conform r
   | 8 :: r => accept_conform r
+  | 9 :: r => once_conform r
   | [kind; cfg; fk; fi; err; rcl; rcr; dconn; dfd; dmem; dstr; gl] =>
       if kind =? 4 then [] else
       match entry_of_kind kind cfg with
